@@ -1,337 +1,716 @@
 package main
 
 import (
+	"fmt"
 	"go/ast"
 	"go/token"
+	"os"
+	"regexp"
 	"strconv"
 	"strings"
 )
 
-// C07 facts: what the model of proxy/http_proxy.go ServeHTTP and proxy/http_handler.go silently relies on.
-//   serveOrder        the recognised statements of ServeHTTP in source order (everything else is skipped, so
-//                     an unrelated statement moving around is not an alarm)
-//   noRoute*          the bounds and the default of the no-route status, the calls made in that branch
-//   *Stmts            the statements of the query merge, host override, strip and prepend blocks (rendered)
-//   directorFields    the fields of req.URL the director assigns, each from the same field of target
-//   wsReplacesURL     the websocket case assigns r.URL = targetURL
+// C07 facts: what the models of proxy/http_proxy.go ServeHTTP, the director of proxy/http_handler.go and the
+// status/size wrapper silently rely on — pinned as MEANING, not spelling.
+//
+// The extractor runs on the normalised AST (package constants inlined, string concatenations folded, safe switches
+// rewritten to if/else-if) and turns a function into an ordered list of EVENTS
+//
+//	<guards> ⊢ store <lhs> = <rhs>      <guards> ⊢ call <callee>(<args>)      <guards> ⊢ return
+//
+// where
+//   - every identifier is printed by its ROLE, not its spelling: the receiver is `recv`, the parameters of ServeHTTP
+//     are `w` and `req`, a local is named after the expression that first defined it (`$(req.URL.EscapedPath())`;
+//     a few long ones get an alias: target, turl, raw, status, html, handler, rw);
+//   - a call to an unexported function or method of the same package is followed into its body with the parameters
+//     replaced by the (role-printed) arguments, `return e` becoming a store to the variable the call was assigned to
+//     (so extracting or inlining a helper, or renaming it, leaves the events as they are); inside expressions such a
+//     call is printed as `helper(args)`;
+//   - the guards are the conditions on the path: `if c { A } else { B }` gives `c ⊢ A`, `!(c) ⊢ B`, and the
+//     statements after an `if c { …; return }` are guarded by `past:!(c)` (so an early return and an else branch
+//     give the same events);
+//   - `x == ""`, `len(x) == 0` print as `empty(x)`; `x != ""`, `len(x) > 0`, `len(x) != 0` as `nonempty(x)`.
+//
+// Facts:
+//
+//	serveOrder      the recognised events of ServeHTTP, each once, in order (everything else is skipped)
+//	gatePrefix      the `past:` guards of the target-URL construction: it is reached only past these returns
+//	noRouteEvents   the events of the `target == nil` branch; noRouteLo/Hi/Default parsed out of them
+//	urlEvents       every store to the target URL, the escaped path, the request's Host and URL, with its guards
+//	directorStores  the stores of the Director function literal to its request parameter
+//	rw*             the wrapper handed to h.ServeHTTP forwards WriteHeader and Write
 func init() {
 	register("C07", func(x *X) error {
+		x.UseNormalizedAST()
 		fd := x.funcDecl("proxy", "HTTPProxy", "ServeHTTP")
 		if fd == nil || fd.Body == nil {
 			return nil
 		}
+		w := newC07Walker(x, "proxy")
+		top := w.topFrame(fd, []string{"w", "req"})
+		// roles that are visible only from a use: the handler whose ServeHTTP is called and the writer handed to it
+		ast.Inspect(fd.Body, func(n ast.Node) bool {
+			if c, ok := n.(*ast.CallExpr); ok {
+				if se, ok := c.Fun.(*ast.SelectorExpr); ok && se.Sel.Name == "ServeHTTP" && len(c.Args) == 2 {
+					if id, ok := se.X.(*ast.Ident); ok {
+						top.locals[id.Name] = "handler"
+					}
+					if id, ok := c.Args[0].(*ast.Ident); ok {
+						top.locals[id.Name] = "rw"
+					}
+				}
+			}
+			return true
+		})
+		w.alias = map[string]string{
+			"$(recv.Lookup(req))":           "target",
+			"$(req.URL.EscapedPath())":      "raw",
+			"$(recv.Config.NoRouteStatus)":  "status",
+			"$(noroute.GetHTML())":          "html",
+			"$(req.Header.Get(\"Upgrade\"))": "upgrade",
+			"$(req.Header.Get(\"Accept\"))":  "accept",
+		}
+		w.aliasPrefix = map[string]string{"$(&url.URL{Scheme: target.URL.Scheme,": "turl"}
+		w.block(fd.Body.List, nil, top, "")
+		if os.Getenv("FACTGEN_C07_DBG") != "" {
+			for _, e := range w.events {
+				fmt.Fprintln(os.Stderr, c07render(e.guards, e.act))
+			}
+		}
+
+		// ---- serveOrder
 		var order []string
 		seen := map[string]bool{}
 		add := func(k string) {
-			order = append(order, k)
-			seen[k] = true
-		}
-		flat := func(b *ast.BlockStmt) []string {
-			var out []string
-			for _, s := range b.List {
-				out = append(out, c07stmts(x, s)...)
+			if !seen[k] {
+				seen[k] = true
+				order = append(order, k)
 			}
-			return out
 		}
-		for _, st := range fd.Body.List {
-			switch s := st.(type) {
-			case *ast.AssignStmt:
-				if len(s.Lhs) != 1 || len(s.Rhs) != 1 {
-					continue
-				}
-				l, r := x.src(s.Lhs[0]), x.src(s.Rhs[0])
-				switch {
-				case l == "t" && r == "p.Lookup(r)":
-					add("lookup")
-				case l == "targetURL" && strings.HasPrefix(r, "&url.URL{"):
-					add("url-build")
-					x.defStr("urlBuild", r)
-				case l == "rawPath":
-					add("rawpath-init")
-					x.defStr("rawPathInit", r)
-				}
-			case *ast.IfStmt:
-				cond := x.src(s.Cond)
-				switch {
-				case cond == "t == nil":
-					add("noroute-return")
-					c07noroute(x, s.Body)
-				case cond == "t.AccessDeniedHTTP(r)":
-					add("access")
-				case cond == "!t.Authorized(r, w, p.AuthSchemes)":
-					add("auth")
-				case strings.HasPrefix(cond, "t.RedirectCode != 0"):
-					add("redirect")
-				case strings.Contains(cond, "t.URL.RawQuery") && strings.Contains(cond, "r.URL.RawQuery"):
-					add("query-merge")
-					x.defStrList("queryMergeStmts", c07stmts(x, s))
-				case strings.HasPrefix(cond, "t.Host =="):
-					add("host-override")
-					x.defStrList("hostStmts", c07stmts(x, s))
-				case strings.Contains(cond, "t.StripPath"):
-					add("strip")
-					x.defStrList("stripStmts", c07stmts(x, s))
-				case strings.Contains(cond, "t.PrependPath"):
-					add("prepend")
-					x.defStrList("prependStmts", c07stmts(x, s))
-				case strings.Contains(cond, "rawPath"):
-					add("rawpath-set")
-					x.defStrList("rawPathSetStmts", c07stmts(x, s))
-				case s.Init != nil && strings.Contains(x.src(s.Init), "addHeaders(r,"):
-					add("addHeaders")
-				}
-			case *ast.SwitchStmt:
-				if s.Tag == nil && len(x.calls(s, "newHTTPProxy")) > 0 {
-					add("handler-choice")
-					c07switch(x, s)
-				}
-			case *ast.ExprStmt:
-				if c, ok := s.X.(*ast.CallExpr); ok && x.src(c.Fun) == "h.ServeHTTP" {
-					add("serve")
+		has := func(gs []string, sub string) bool {
+			for _, g := range gs {
+				if strings.Contains(g, sub) {
+					return true
 				}
 			}
-			_ = flat
+			return false
+		}
+		for _, e := range w.events {
+			switch {
+			case strings.HasPrefix(e.act, "store target = recv.Lookup("):
+				add("lookup")
+			case e.act == "return" && len(c07live(e.guards)) == 1 && c07live(e.guards)[0] == "target == nil":
+				add("noroute-return")
+			case strings.HasPrefix(e.act, "call http.Redirect("):
+				add("redirect")
+			case strings.HasPrefix(e.act, "store turl = "):
+				add("url-build")
+			case strings.HasPrefix(e.act, "store raw = req.URL.EscapedPath()"):
+				add("rawpath-init")
+			case strings.HasPrefix(e.act, "store turl.RawQuery = "):
+				add("query-merge")
+			case strings.HasPrefix(e.act, "store turl.Path = ") && has(e.guards, "target.StripPath"):
+				add("strip")
+			case strings.HasPrefix(e.act, "store turl.Path = ") && has(e.guards, "target.PrependPath"):
+				add("prepend")
+			case strings.HasPrefix(e.act, "store turl.RawPath = "):
+				add("rawpath-set")
+			case strings.HasPrefix(e.act, "enter helper(") && strings.Contains(e.act, "target.StripPath"):
+				add("addHeaders")
+			case strings.HasPrefix(e.act, "store req.Host = "):
+				add("host-override")
+			case strings.HasPrefix(e.act, "store handler = "):
+				add("handler-choice")
+			case strings.HasPrefix(e.act, "call handler.ServeHTTP("):
+				add("serve")
+			}
+			if has(e.guards, "target.AccessDeniedHTTP(req)") {
+				add("access")
+			}
+			if has(e.guards, "target.Authorized(req, w, recv.AuthSchemes)") {
+				add("auth")
+			}
 		}
 		x.defStrList("serveOrder", order)
 		for _, k := range []string{"lookup", "noroute-return", "url-build", "query-merge", "host-override", "strip", "prepend", "handler-choice", "serve"} {
 			if !seen[k] {
-				x.fail("proxy.ServeHTTP: statement %q not recognised any more", k)
+				x.fail("proxy.ServeHTTP: event %q not recognised any more", k)
 			}
 		}
 
-		// the director
-		nd := x.funcDecl("proxy", "", "newHTTPProxy")
-		if nd != nil {
-			var fields, others []string
-			copies := true
-			found := false
-			ast.Inspect(nd, func(n ast.Node) bool {
+		// ---- the no-route branch
+		var nr []string
+		for _, e := range w.events {
+			if lv := c07live(e.guards); len(lv) > 0 && lv[0] == "target == nil" && !strings.HasPrefix(e.act, "enter ") {
+				nr = append(nr, c07render(lv[1:], e.act))
+			}
+		}
+		x.defStrList("noRouteEvents", nr)
+		c07bounds(x, nr)
+
+		// ---- the target URL, the escaped path, the request's Host and URL
+		var gate, urlEv []string
+		for _, e := range w.events {
+			if !strings.HasPrefix(e.act, "store ") {
+				continue
+			}
+			lhs := strings.TrimPrefix(e.act, "store ")
+			lhs = lhs[:strings.Index(lhs, " ")]
+			if lhs == "turl" || strings.HasPrefix(lhs, "turl.") || lhs == "raw" || lhs == "req.Host" || lhs == "req.URL" {
+				var gs []string
+				for _, g := range e.guards {
+					if strings.HasPrefix(g, "past:") {
+						if lhs == "turl" {
+							gate = append(gate, g)
+						}
+						continue
+					}
+					gs = append(gs, g)
+				}
+				urlEv = append(urlEv, c07render(gs, e.act))
+			}
+		}
+		x.defStrList("gatePrefix", gate)
+		x.defStrList("urlEvents", urlEv)
+
+		c07director(x, w)
+		c07responseWriter(x, fd)
+		return nil
+	})
+}
+
+// c07live drops the guards that only say "an earlier early return was not taken".
+func c07live(guards []string) []string {
+	var out []string
+	for _, g := range guards {
+		if !strings.HasPrefix(g, "past:") {
+			out = append(out, g)
+		}
+	}
+	return out
+}
+
+func c07render(guards []string, act string) string {
+	if len(guards) == 0 {
+		return act
+	}
+	return strings.Join(guards, ", ") + " ⊢ " + act
+}
+
+// ---------------------------------------------------------------------------------------------------------
+// the event walker
+// ---------------------------------------------------------------------------------------------------------
+
+type c07ev struct {
+	guards []string
+	act    string
+}
+
+type c07frame struct {
+	fd     *ast.FuncDecl
+	params []string
+	recv   string
+	// for an inlined helper: the caller's frame and the call's receiver/arguments; nil parent = top frame
+	parent  *c07frame
+	recvArg ast.Expr
+	args    []ast.Expr
+	roles   []string          // top frame: role names of the parameters
+	locals  map[string]string // spelling -> canonical name
+	depth   int
+}
+
+type c07walker struct {
+	x           *X
+	dir         string
+	events      []c07ev
+	alias       map[string]string
+	aliasPrefix map[string]string
+	stack       map[string]bool
+}
+
+func newC07Walker(x *X, dir string) *c07walker {
+	return &c07walker{x: x, dir: dir, alias: map[string]string{}, aliasPrefix: map[string]string{}, stack: map[string]bool{}}
+}
+
+func (w *c07walker) topFrame(fd *ast.FuncDecl, roles []string) *c07frame {
+	recv, params, _ := w.x.LocalNames(fd)
+	return &c07frame{fd: fd, params: params, recv: recv, roles: roles, locals: map[string]string{}}
+}
+
+func (w *c07walker) emit(guards []string, act string) {
+	w.events = append(w.events, c07ev{append([]string(nil), guards...), act})
+}
+
+// helperDecl returns the declaration of an unexported function/method of the package that the call goes to.
+func (w *c07walker) helperDecl(c *ast.CallExpr) (*ast.FuncDecl, ast.Expr) {
+	switch f := c.Fun.(type) {
+	case *ast.Ident:
+		if !ast.IsExported(f.Name) && (f.Obj == nil || f.Obj.Kind == ast.Fun) {
+			if fd := w.x.anyFuncDecl(w.dir, f.Name); fd != nil && fd.Recv == nil {
+				return fd, nil
+			}
+		}
+	case *ast.SelectorExpr:
+		if !ast.IsExported(f.Sel.Name) {
+			if fd := w.x.anyFuncDecl(w.dir, f.Sel.Name); fd != nil && fd.Recv != nil {
+				return fd, f.X
+			}
+		}
+	}
+	return nil, nil
+}
+
+func (w *c07walker) name(s string) string {
+	if a, ok := w.alias[s]; ok {
+		return a
+	}
+	for p, a := range w.aliasPrefix {
+		if strings.HasPrefix(s, p) {
+			return a
+		}
+	}
+	return s
+}
+
+// expr prints an expression with identifiers replaced by roles.
+func (w *c07walker) expr(e ast.Expr, fr *c07frame) string {
+	switch v := e.(type) {
+	case nil:
+		return ""
+	case *ast.Ident:
+		if c, ok := fr.locals[v.Name]; ok {
+			return c
+		}
+		for i, p := range fr.params {
+			if p == v.Name {
+				if fr.parent == nil {
+					if i < len(fr.roles) {
+						return fr.roles[i]
+					}
+					return "p" + strconv.Itoa(i)
+				}
+				if i < len(fr.args) {
+					return w.expr(fr.args[i], fr.parent)
+				}
+			}
+		}
+		if v.Name == fr.recv && fr.recv != "" {
+			if fr.parent == nil {
+				return "recv"
+			}
+			return w.expr(fr.recvArg, fr.parent)
+		}
+		return v.Name
+	case *ast.BasicLit:
+		return v.Value
+	case *ast.ParenExpr:
+		return "(" + w.expr(v.X, fr) + ")"
+	case *ast.SelectorExpr:
+		return w.expr(v.X, fr) + "." + v.Sel.Name
+	case *ast.StarExpr:
+		return "*" + w.expr(v.X, fr)
+	case *ast.UnaryExpr:
+		return v.Op.String() + w.expr(v.X, fr)
+	case *ast.BinaryExpr:
+		// emptiness tests in one spelling
+		if s, ok := w.emptiness(v, fr); ok {
+			return s
+		}
+		return w.expr(v.X, fr) + " " + v.Op.String() + " " + w.expr(v.Y, fr)
+	case *ast.CallExpr:
+		var args []string
+		for _, a := range v.Args {
+			args = append(args, w.expr(a, fr))
+		}
+		if fd, _ := w.helperDecl(v); fd != nil {
+			return "helper(" + strings.Join(args, ", ") + ")"
+		}
+		return w.expr(v.Fun, fr) + "(" + strings.Join(args, ", ") + ")"
+	case *ast.IndexExpr:
+		return w.expr(v.X, fr) + "[" + w.expr(v.Index, fr) + "]"
+	case *ast.SliceExpr:
+		return w.expr(v.X, fr) + "[" + w.expr(v.Low, fr) + ":" + w.expr(v.High, fr) + "]"
+	case *ast.KeyValueExpr:
+		return w.x.src(v.Key) + ": " + w.expr(v.Value, fr)
+	case *ast.CompositeLit:
+		var el []string
+		for _, a := range v.Elts {
+			el = append(el, w.expr(a, fr))
+		}
+		return w.x.src(v.Type) + "{" + strings.Join(el, ", ") + "}"
+	case *ast.TypeAssertExpr:
+		return w.expr(v.X, fr) + ".(" + w.x.src(v.Type) + ")"
+	case *ast.FuncLit:
+		return "func{…}"
+	}
+	return w.x.src(e)
+}
+
+func (w *c07walker) emptiness(v *ast.BinaryExpr, fr *c07frame) (string, bool) {
+	isLit := func(e ast.Expr, val string) bool {
+		b, ok := e.(*ast.BasicLit)
+		return ok && b.Value == val
+	}
+	lenOf := func(e ast.Expr) (ast.Expr, bool) {
+		c, ok := e.(*ast.CallExpr)
+		if !ok || len(c.Args) != 1 {
+			return nil, false
+		}
+		if id, ok := c.Fun.(*ast.Ident); ok && id.Name == "len" {
+			return c.Args[0], true
+		}
+		return nil, false
+	}
+	switch {
+	case v.Op == token.EQL && isLit(v.Y, `""`):
+		return "empty(" + w.expr(v.X, fr) + ")", true
+	case v.Op == token.NEQ && isLit(v.Y, `""`):
+		return "nonempty(" + w.expr(v.X, fr) + ")", true
+	}
+	if a, ok := lenOf(v.X); ok && isLit(v.Y, "0") {
+		switch v.Op {
+		case token.EQL, token.LEQ:
+			return "empty(" + w.expr(a, fr) + ")", true
+		case token.NEQ, token.GTR:
+			return "nonempty(" + w.expr(a, fr) + ")", true
+		}
+	}
+	return "", false
+}
+
+func c07terminates(b *ast.BlockStmt) bool {
+	if b == nil || len(b.List) == 0 {
+		return false
+	}
+	switch s := b.List[len(b.List)-1].(type) {
+	case *ast.ReturnStmt, *ast.BranchStmt:
+		return true
+	case *ast.ExprStmt:
+		if c, ok := s.X.(*ast.CallExpr); ok {
+			if id, ok := c.Fun.(*ast.Ident); ok && id.Name == "panic" {
+				return true
+			}
+		}
+	}
+	return false
+}
+
+// inline walks the body of a helper the call goes to; ret is the (role-printed) variable the call's value is
+// stored in ("" when the value is not used).
+func (w *c07walker) inline(c *ast.CallExpr, fd *ast.FuncDecl, recvArg ast.Expr, guards []string, fr *c07frame, ret string) bool {
+	if fr.depth >= 3 || w.stack[fd.Name.Name] {
+		return false
+	}
+	var args []string
+	for _, a := range c.Args {
+		args = append(args, w.expr(a, fr))
+	}
+	w.emit(guards, "enter helper("+strings.Join(args, ", ")+")")
+	recv, params, _ := w.x.LocalNames(fd)
+	nf := &c07frame{fd: fd, params: params, recv: recv, parent: fr, recvArg: recvArg, args: c.Args, locals: map[string]string{}, depth: fr.depth + 1}
+	w.stack[fd.Name.Name] = true
+	w.block(fd.Body.List, guards, nf, ret)
+	delete(w.stack, fd.Name.Name)
+	return true
+}
+
+func (w *c07walker) define(id *ast.Ident, canonical string, fr *c07frame) {
+	if id.Name == "_" {
+		return
+	}
+	if _, preset := fr.locals[id.Name]; preset && fr.locals[id.Name] == "handler" || fr.locals[id.Name] == "rw" {
+		return
+	}
+	fr.locals[id.Name] = w.name(canonical)
+}
+
+// block walks statements under the given guards. ret: see inline.
+func (w *c07walker) block(stmts []ast.Stmt, guards []string, fr *c07frame, ret string) {
+	for i, s := range stmts {
+		switch v := s.(type) {
+		case *ast.BlockStmt:
+			w.block(v.List, guards, fr, ret)
+		case *ast.DeclStmt:
+			if gd, ok := v.Decl.(*ast.GenDecl); ok && gd.Tok == token.VAR {
+				for _, sp := range gd.Specs {
+					vs := sp.(*ast.ValueSpec)
+					for j, n := range vs.Names {
+						if j < len(vs.Values) {
+							rhs := w.expr(vs.Values[j], fr)
+							w.define(n, "$("+rhs+")", fr)
+							w.emit(guards, "store "+w.expr(n, fr)+" = "+rhs)
+						} else if _, ok := fr.locals[n.Name]; !ok {
+							fr.locals[n.Name] = "$var:" + w.x.src(vs.Type)
+						}
+					}
+				}
+			}
+		case *ast.AssignStmt:
+			w.assign(v, guards, fr)
+		case *ast.ExprStmt:
+			if c, ok := v.X.(*ast.CallExpr); ok {
+				if fd, recvArg := w.helperDecl(c); fd != nil && w.inline(c, fd, recvArg, guards, fr, "") {
+					continue
+				}
+				w.emit(guards, "call "+w.expr(c, fr))
+			}
+		case *ast.ReturnStmt:
+			switch {
+			case fr.parent == nil:
+				w.emit(guards, "return")
+			case ret != "" && len(v.Results) == 1:
+				w.emit(guards, "store "+ret+" = "+w.expr(v.Results[0], fr))
+			}
+		case *ast.IfStmt:
+			if v.Init != nil {
+				w.block([]ast.Stmt{v.Init}, guards, fr, ret)
+			}
+			c := w.expr(v.Cond, fr)
+			w.block(v.Body.List, append(append([]string(nil), guards...), c), fr, ret)
+			neg := "!(" + c + ")"
+			if v.Else != nil {
+				w.block([]ast.Stmt{v.Else}, append(append([]string(nil), guards...), neg), fr, ret)
+			}
+			if c07terminates(v.Body) && v.Else == nil {
+				w.block(stmts[i+1:], append(append([]string(nil), guards...), "past:"+neg), fr, ret)
+				return
+			}
+		case *ast.ForStmt:
+			w.block(v.Body.List, append(append([]string(nil), guards...), "loop"), fr, ret)
+		case *ast.RangeStmt:
+			w.block(v.Body.List, append(append([]string(nil), guards...), "loop"), fr, ret)
+		case *ast.DeferStmt:
+			w.emit(guards, "defer "+w.expr(v.Call, fr))
+		case *ast.GoStmt:
+			w.emit(guards, "go "+w.expr(v.Call, fr))
+		case *ast.SwitchStmt, *ast.TypeSwitchStmt, *ast.SelectStmt:
+			w.emit(guards, "unnormalised "+strings.SplitN(w.x.src(s), "{", 2)[0])
+		}
+	}
+}
+
+func (w *c07walker) assign(v *ast.AssignStmt, guards []string, fr *c07frame) {
+	if len(v.Lhs) == len(v.Rhs) {
+		// the right-hand sides are evaluated before any left-hand side is (re)defined
+		rhs := make([]string, len(v.Rhs))
+		for i := range v.Rhs {
+			rhs[i] = w.expr(v.Rhs[i], fr)
+		}
+		for i := range v.Lhs {
+			if v.Tok == token.DEFINE {
+				if id, ok := v.Lhs[i].(*ast.Ident); ok {
+					if _, known := fr.locals[id.Name]; !known || (fr.locals[id.Name] != "handler" && fr.locals[id.Name] != "rw") {
+						w.define(id, "$("+rhs[i]+")", fr)
+					}
+				}
+			}
+			lhs := w.expr(v.Lhs[i], fr)
+			if c, ok := v.Rhs[i].(*ast.CallExpr); ok {
+				if fd, recvArg := w.helperDecl(c); fd != nil && w.inline(c, fd, recvArg, guards, fr, lhs) {
+					continue
+				}
+			}
+			op := "="
+			if v.Tok != token.ASSIGN && v.Tok != token.DEFINE {
+				op = v.Tok.String()
+			}
+			w.emit(guards, "store "+lhs+" "+op+" "+rhs[i])
+		}
+		return
+	}
+	// a, b := f()
+	if len(v.Rhs) == 1 {
+		r := w.expr(v.Rhs[0], fr)
+		for i, l := range v.Lhs {
+			if v.Tok == token.DEFINE {
+				if id, ok := l.(*ast.Ident); ok {
+					w.define(id, "$"+strconv.Itoa(i)+"("+r+")", fr)
+				}
+			}
+		}
+		var ls []string
+		for _, l := range v.Lhs {
+			ls = append(ls, w.expr(l, fr))
+		}
+		w.emit(guards, "store "+strings.Join(ls, ", ")+" = "+r)
+	}
+}
+
+// ---------------------------------------------------------------------------------------------------------
+// derived facts
+// ---------------------------------------------------------------------------------------------------------
+
+var c07boundRe = regexp.MustCompile(`^status < (-?\d+) \|\| status > (-?\d+) ⊢ store status = (\S+)$`)
+
+func c07bounds(x *X, nr []string) {
+	for _, e := range nr {
+		m := c07boundRe.FindStringSubmatch(e)
+		if m == nil {
+			continue
+		}
+		lo, _ := strconv.ParseInt(m[1], 10, 64)
+		hi, _ := strconv.ParseInt(m[2], 10, 64)
+		known := map[string]int64{"http.StatusNotFound": 404}
+		dv, ok := known[m[3]]
+		if !ok {
+			if n, err := strconv.ParseInt(m[3], 10, 64); err == nil {
+				dv, ok = n, true
+			}
+		}
+		if !ok {
+			x.fail("proxy.ServeHTTP: no-route default status %q is not a known constant", m[3])
+			return
+		}
+		x.defInt("noRouteLo", lo)
+		x.defInt("noRouteHi", hi)
+		x.defInt("noRouteDefault", dv)
+		return
+	}
+	x.fail("proxy.ServeHTTP: the bounds check of the no-route status was not recognised")
+}
+
+// c07director: the function literal given as Director of the reverse proxy, wherever it is built.
+func c07director(x *X, w *c07walker) {
+	found := false
+	for _, f := range x.files("proxy") {
+		for _, d := range f.Decls {
+			fd, ok := d.(*ast.FuncDecl)
+			if !ok || fd.Body == nil {
+				continue
+			}
+			ast.Inspect(fd.Body, func(n ast.Node) bool {
 				kv, ok := n.(*ast.KeyValueExpr)
 				if !ok || x.src(kv.Key) != "Director" {
 					return true
 				}
 				fl, ok := kv.Value.(*ast.FuncLit)
-				if !ok {
+				if !ok || fl.Type.Params == nil || len(fl.Type.Params.List) != 1 || len(fl.Type.Params.List[0].Names) != 1 || found {
 					return true
 				}
 				found = true
-				ast.Inspect(fl.Body, func(m ast.Node) bool {
-					as, ok := m.(*ast.AssignStmt)
-					if !ok {
-						return true
+				// roles: the literal's parameter is the outgoing request, the first parameter of the enclosing
+				// function is the target URL it was built for
+				dw := newC07Walker(x, "proxy")
+				fr := dw.topFrame(fd, []string{"turl"})
+				fr.locals[fl.Type.Params.List[0].Names[0].Name] = "out"
+				dw.block(fl.Body.List, nil, fr, "")
+				var stores []string
+				for _, e := range dw.events {
+					if strings.HasPrefix(e.act, "store out.") || strings.HasPrefix(e.act, "store out ") {
+						stores = append(stores, c07render(e.guards, e.act))
 					}
-					for i, l := range as.Lhs {
-						ls := x.src(l)
-						if strings.HasPrefix(ls, "req.URL.") {
-							f := strings.TrimPrefix(ls, "req.URL.")
-							fields = append(fields, f)
-							if i >= len(as.Rhs) || x.src(as.Rhs[i]) != "target."+f {
-								copies = false
-							}
-						} else if strings.HasPrefix(ls, "req.") || strings.HasPrefix(ls, "*req") || ls == "req" {
-							others = append(others, ls)
-						}
-					}
-					return true
-				})
+				}
+				x.defStrList("directorStores", stores)
 				return false
 			})
-			if !found {
-				x.fail("proxy.newHTTPProxy: Director function literal not found")
-			}
-			x.defStrList("directorFields", fields)
-			x.defBool("directorCopiesSameField", copies)
-			x.defStrList("directorOtherWrites", others)
 		}
-		c07responseWriter(x)
-		return nil
-	})
+	}
+	if !found {
+		x.fail("proxy: no Director function literal found")
+	}
 }
 
-// c07responseWriter: the status/size wrapper passes every WriteHeader and Write on to the wrapped writer.
-//   rwWriteHeaderForwards   `rw.w.WriteHeader(statusCode)` is a top-level statement of WriteHeader and nothing
-//                           before it can leave the function or is conditional
-//   rwWriteHeaderRecords    `rw.code = statusCode` is a top-level statement
-//   rwWriteForwards         Write hands its argument to `rw.w.Write` and returns that call's results
-func c07responseWriter(x *X) {
-	wh := x.funcDecl("proxy", "responseWriter", "WriteHeader")
-	if wh != nil && wh.Body != nil && wh.Type.Params != nil && len(wh.Type.Params.List) == 1 && len(wh.Type.Params.List[0].Names) == 1 {
-		arg := wh.Type.Params.List[0].Names[0].Name
-		forwards, records, clean := false, false, true
-		var top []string
-		for _, st := range wh.Body.List {
-			top = append(top, c07stmts(x, st)...)
-			switch s := st.(type) {
-			case *ast.ExprStmt:
-				if x.src(s.X) == "rw.w.WriteHeader("+arg+")" {
-					forwards = forwards || clean
-				}
-			case *ast.AssignStmt:
-				if len(s.Lhs) == 1 && len(s.Rhs) == 1 && x.src(s.Lhs[0]) == "rw.code" && x.src(s.Rhs[0]) == arg && s.Tok == token.ASSIGN {
-					records = true
-				}
-			default:
-				// an if/switch/return/defer/go… in front of the forwarding call could skip or alter it
-				if !forwards {
-					clean = false
-				}
-			}
-		}
-		x.defBool("rwWriteHeaderForwards", forwards)
-		x.defBool("rwWriteHeaderRecords", records)
-		x.defStrList("rwWriteHeaderStmts", top)
-	} else {
-		x.fail("proxy.responseWriter.WriteHeader: not found or unexpected signature")
-	}
-	wr := x.funcDecl("proxy", "responseWriter", "Write")
-	if wr != nil && wr.Body != nil && len(wr.Body.List) > 0 {
-		fw := false
-		if as, ok := wr.Body.List[0].(*ast.AssignStmt); ok && len(as.Rhs) == 1 && x.src(as.Rhs[0]) == "rw.w.Write(b)" && x.src(as.Lhs[0]) == "n" {
-			if rt, ok := wr.Body.List[len(wr.Body.List)-1].(*ast.ReturnStmt); ok && len(rt.Results) == 2 && x.src(rt.Results[0]) == "n" {
-				fw = true
-			}
-		}
-		x.defBool("rwWriteForwards", fw)
-	} else {
-		x.fail("proxy.responseWriter.Write: not found")
-	}
-	// ServeHTTP hands the wrapper, not the bare writer, to the handler
-	fd := x.funcDecl("proxy", "HTTPProxy", "ServeHTTP")
+// c07responseWriter: the wrapper ServeHTTP hands to the handler passes every WriteHeader and Write on. The wrapper
+// type is found from its use (`rw := &T{…}` … `h.ServeHTTP(rw, r)`), its methods by their (interface) names.
+func c07responseWriter(x *X, serve *ast.FuncDecl) {
+	typ := ""
 	wrapped := false
-	if fd != nil {
-		for _, c := range x.calls(fd, "h.ServeHTTP") {
-			if len(c.Args) == 2 && x.src(c.Args[0]) == "rw" {
-				wrapped = true
-			}
-		}
-	}
-	x.defBool("serveUsesResponseWriter", wrapped)
-}
-
-// c07stmts renders a statement as a flat list: conditions as "if <cond>", "else", assignments and calls as source.
-func c07stmts(x *X, s ast.Stmt) []string {
-	switch v := s.(type) {
-	case *ast.IfStmt:
-		out := []string{"if " + x.src(v.Cond)}
-		if v.Init != nil {
-			out = []string{"if " + x.src(v.Init) + "; " + x.src(v.Cond)}
-		}
-		for _, b := range v.Body.List {
-			out = append(out, c07stmts(x, b)...)
-		}
-		out = append(out, "end")
-		if v.Else != nil {
-			out = append(out, "else")
-			out = append(out, c07stmts(x, v.Else)...)
-		}
-		return out
-	case *ast.BlockStmt:
-		var out []string
-		for _, b := range v.List {
-			out = append(out, c07stmts(x, b)...)
-		}
-		return append(out, "end")
-	default:
-		return []string{x.src(s)}
-	}
-}
-
-func c07noroute(x *X, b *ast.BlockStmt) {
-	var calls []string
-	ast.Inspect(b, func(n ast.Node) bool {
+	var rwName string
+	ast.Inspect(serve.Body, func(n ast.Node) bool {
 		if c, ok := n.(*ast.CallExpr); ok {
-			calls = append(calls, x.src(c.Fun))
+			if se, ok := c.Fun.(*ast.SelectorExpr); ok && se.Sel.Name == "ServeHTTP" && len(c.Args) == 2 {
+				if id, ok := c.Args[0].(*ast.Ident); ok {
+					rwName = id.Name
+				}
+			}
 		}
 		return true
 	})
-	x.defStrList("noRouteCalls", calls)
-	_, ret := b.List[len(b.List)-1].(*ast.ReturnStmt)
-	x.defBool("noRouteEndsWithReturn", len(b.List) > 0 && ret)
-	x.defStrList("noRouteStmts", func() []string {
-		var out []string
-		for _, s := range b.List {
-			out = append(out, c07stmts(x, s)...)
+	ast.Inspect(serve.Body, func(n ast.Node) bool {
+		as, ok := n.(*ast.AssignStmt)
+		if !ok || len(as.Lhs) != 1 || len(as.Rhs) != 1 {
+			return true
 		}
-		return out
-	}())
-	// status := p.Config.NoRouteStatus; if status < LO || status > HI { status = DEFAULT }
-	found := false
-	for _, s := range b.List {
-		ifs, ok := s.(*ast.IfStmt)
-		if !ok {
-			continue
-		}
-		be, ok := ifs.Cond.(*ast.BinaryExpr)
-		if !ok || be.Op != token.LOR {
-			continue
-		}
-		lo, ok1 := be.X.(*ast.BinaryExpr)
-		hi, ok2 := be.Y.(*ast.BinaryExpr)
-		if !ok1 || !ok2 || lo.Op != token.LSS || hi.Op != token.GTR || x.src(lo.X) != "status" || x.src(hi.X) != "status" {
-			continue
-		}
-		lv, e1 := strconv.ParseInt(x.src(lo.Y), 10, 64)
-		hv, e2 := strconv.ParseInt(x.src(hi.Y), 10, 64)
-		if e1 != nil || e2 != nil || len(ifs.Body.List) != 1 {
-			continue
-		}
-		as, ok := ifs.Body.List[0].(*ast.AssignStmt)
-		if !ok || len(as.Lhs) != 1 || x.src(as.Lhs[0]) != "status" {
-			continue
-		}
-		name := x.src(as.Rhs[0])
-		known := map[string]int64{"http.StatusNotFound": 404}
-		dv, ok := known[name]
-		if !ok {
-			if n, err := strconv.ParseInt(name, 10, 64); err == nil {
-				dv, ok = n, true
-			}
-		}
-		if !ok {
-			x.fail("proxy.ServeHTTP: no-route default status %q is not a known constant", name)
-			continue
-		}
-		x.defInt("noRouteLo", lv)
-		x.defInt("noRouteHi", hv)
-		x.defInt("noRouteDefault", dv)
-		x.defStr("noRouteDefaultName", name)
-		found = true
-	}
-	if !found {
-		x.fail("proxy.ServeHTTP: the bounds check of the no-route status was not recognised")
-	}
-}
-
-func c07switch(x *X, s *ast.SwitchStmt) {
-	var cases []string
-	ws := false
-	for _, c := range s.Body.List {
-		cc, ok := c.(*ast.CaseClause)
-		if !ok {
-			continue
-		}
-		if cc.List == nil {
-			cases = append(cases, "default")
-		} else {
-			var cs []string
-			for _, e := range cc.List {
-				cs = append(cs, x.src(e))
-			}
-			cases = append(cases, strings.Join(cs, ", "))
-		}
-		if len(cc.List) > 0 && strings.Contains(x.src(cc.List[0]), "upgrade") {
-			for _, b := range cc.Body {
-				if x.src(b) == "r.URL = targetURL" {
-					ws = true
+		if id, ok := as.Lhs[0].(*ast.Ident); ok && id.Name == rwName && rwName != "" {
+			if u, ok := as.Rhs[0].(*ast.UnaryExpr); ok && u.Op == token.AND {
+				if cl, ok := u.X.(*ast.CompositeLit); ok {
+					if t, ok := cl.Type.(*ast.Ident); ok {
+						typ = t.Name
+						// the wrapper is built around ServeHTTP's own writer (its first parameter)
+						_, params, _ := x.LocalNames(serve)
+						for _, el := range cl.Elts {
+							if kv, ok := el.(*ast.KeyValueExpr); ok && len(params) > 0 && x.src(kv.Value) == params[0] {
+								wrapped = true
+							}
+						}
+					}
 				}
 			}
-			kind := "ws"
-			if len(x.calls(cc, "newWSHandler")) == 0 {
-				kind = "?"
-			}
-			x.defStr("wsCaseHandler", kind)
 		}
+		return true
+	})
+	x.defBool("serveUsesResponseWriter", wrapped && typ != "")
+	if typ == "" {
+		x.fail("proxy.ServeHTTP: the writer handed to h.ServeHTTP is not a wrapper built in ServeHTTP")
+		return
 	}
-	x.defStrList("handlerCases", cases)
-	x.defBool("wsReplacesURL", ws)
+	events := func(method string, roles []string) []string {
+		fd := x.funcDecl("proxy", typ, method)
+		if fd == nil || fd.Body == nil {
+			return nil
+		}
+		w := newC07Walker(x, "proxy")
+		fr := w.topFrame(fd, roles)
+		w.block(fd.Body.List, nil, fr, "")
+		var out []string
+		for _, e := range w.events {
+			if !strings.HasPrefix(e.act, "enter ") {
+				out = append(out, c07render(e.guards, e.act))
+			}
+		}
+		return out
+	}
+	// WriteHeader: the call on a field of the receiver with the code is unguarded; the code is recorded unguarded
+	wh := events("WriteHeader", []string{"code"})
+	fwd, rec := false, false
+	fieldCall := regexp.MustCompile(`^call recv\.\w+\.WriteHeader\(code\)$`)
+	fieldStore := regexp.MustCompile(`^store recv\.\w+ = code$`)
+	for _, e := range wh {
+		fwd = fwd || fieldCall.MatchString(e)
+		rec = rec || fieldStore.MatchString(e)
+	}
+	x.defBool("rwWriteHeaderForwards", fwd)
+	x.defBool("rwWriteHeaderRecords", rec)
+	x.defStrList("rwWriteHeaderEvents", wh)
+	// Write: hands its argument to a field of the receiver and returns that call's count
+	wr := x.funcDecl("proxy", typ, "Write")
+	ok := false
+	if wr != nil && wr.Body != nil {
+		_, params, _ := x.LocalNames(wr)
+		var nVar string
+		ast.Inspect(wr.Body, func(n ast.Node) bool {
+			if as, isAs := n.(*ast.AssignStmt); isAs && len(as.Rhs) == 1 && len(as.Lhs) >= 1 {
+				if c, isCall := as.Rhs[0].(*ast.CallExpr); isCall && len(c.Args) == 1 && len(params) == 1 && x.src(c.Args[0]) == params[0] {
+					if se, isSel := c.Fun.(*ast.SelectorExpr); isSel && se.Sel.Name == "Write" {
+						if id, isID := as.Lhs[0].(*ast.Ident); isID {
+							nVar = id.Name
+						}
+					}
+				}
+			}
+			if rt, isRet := n.(*ast.ReturnStmt); isRet && nVar != "" && len(rt.Results) == 2 && x.src(rt.Results[0]) == nVar {
+				ok = true
+			}
+			if rt, isRet := n.(*ast.ReturnStmt); isRet && len(rt.Results) == 1 {
+				// return rw.w.Write(b) — only without the size bookkeeping; accepted as forwarding
+				if c, isCall := rt.Results[0].(*ast.CallExpr); isCall && len(c.Args) == 1 && len(params) == 1 && x.src(c.Args[0]) == params[0] {
+					if se, isSel := c.Fun.(*ast.SelectorExpr); isSel && se.Sel.Name == "Write" {
+						ok = true
+					}
+				}
+			}
+			return true
+		})
+	}
+	x.defBool("rwWriteForwards", ok)
 }
